@@ -139,7 +139,7 @@ class Gate(dict):
                 mystr += f", {attr}={self.__getattribute__(attr)}"
         if self.__getattribute__("parameter") != "":
             parameter = self.__getattribute__('parameter')
-            mystr += f", parameter='{parameter}'" if isinstance(parameter, str) else f", parameter={parameter}"
+            mystr += f", parameter={parameter!r}" if isinstance(parameter, str) else f", parameter={parameter}"
         if self.is_variational:
             mystr += ", is_variational=True"
         mystr += ")"
